@@ -71,6 +71,7 @@ class MethodMixin:
         reg(os.path.isabs, lambda a, k, n, f: os.path.isabs(a[0]) if not is_sym(a[0]) else self.ufun('py_isabs', STR, z3.BoolSort())(a[0]))
         for nm in ('match', 'fullmatch', 'search'):
             reg(getattr(_re, nm), lambda a, k, n, f, nm=nm: self.m_pattern(a[0] if isinstance(a[0], _re.Pattern) else _re.compile(a[0], *a[2:]), nm, [a[1]], n) if is_sym(a[1]) else getattr(_re, nm)(*a))
+        reg(_re.sub, self.b_re_sub)
         reg(api.unit, lambda a, k, n, f: (a[0],))
         names_ = self.contract_names_for(None, None)
         for nm_ in ('re_match', 're_group', 're_group_none', 'emptyset', 'rangeset', 'setadd', 'rev'):
@@ -211,6 +212,15 @@ class MethodMixin:
                 return z3.If(v >= 0, z3.IntToStr(v), z3.Concat(z3.StringVal('-'), z3.IntToStr(-v)))
             if v.sort() == z3.BoolSort():
                 return z3.If(v, z3.StringVal('True'), z3.StringVal('False'))
+            if v.sort().name() in self.zs.union_by_sort:
+                dt, S = self.zs.union_by_sort[v.sort().name()]
+                res = z3.StringVal('')
+                for i, (ctor, (pyt, arm)) in reversed(list(enumerate(S.arms.items()))):
+                    if pyt in (str, int, bool):
+                        res = z3.If(dt.recognizer(i)(v), self.b_str([dt.accessor(i, 0)(v)], {}, n, f), res)
+                    else:
+                        res = z3.If(dt.recognizer(i)(v), self.ufun('py_str_of_' + ctor, self.zs.zsort(arm), STR)(dt.accessor(i, 0)(v)), res)
+                return res
         if isinstance(v, VStruct) and v.pycls is not None:
             return self.call_method(v, '__str__', [], {}, n)
         raise Unsupported('str()')
@@ -390,6 +400,16 @@ class MethodMixin:
             raise Unsupported('defining class not in the MRO of self')
         return SuperProxy(obj, mro[here[0] + 1:])
 
+    def b_re_sub(self, a, k, n, f):
+        """re.sub(pattern, repl, string): opaque result, recorded in the ghost trace (the callback is verified separately)"""
+        pat, repl, subj = a[0], a[1], a[2]
+        if not is_sym(subj) and not isinstance(repl, Closure) and not is_sym(repl):
+            return _re.sub(*a, **k)
+        res = self.path.fresh(STR, 're_sub')
+        self.path.trace.append(('re.sub', pat, subj, res))
+        self.assumptions.add('re.sub is opaque: one left-to-right pass applying the callback to each non-overlapping match (re is trusted)')
+        return res
+
     def b_sum(self, a, k, n, f):
         items = self.concrete_iter(a[0], n)
         res = a[1] if len(a) > 1 else 0
@@ -473,7 +493,50 @@ class MethodMixin:
             if lang is not None and not self.cur_pure():
                 self.path.assume(z3.Implies(z3.And(matched, z3.Not(n(s))), z3.InRe(g(s), lang)))
         self.assumptions.update(notes)
+        if not self.cur_pure():
+            self.assume_alt_facts(pat, name, s, matched)
         return VOpt(z3.Not(matched), VMatch(pat, s, name))
+
+    def assume_match_facts(self, m):
+        """language facts of the groups of a match object received as a parameter"""
+        notes = set()
+        langs = []
+        nones = []
+        for k, (tree, always) in rx.groups(m.pattern).items():
+            g, n = self.re_group_syms(m.pattern, m.method, k)
+            nones.append((k, n(m.subject), always))
+            if always:
+                self.path.assume(z3.Not(n(m.subject)))
+            lang = rx.group_language(m.pattern, k, notes)
+            if lang is not None:
+                self.path.assume(z3.Implies(z3.Not(n(m.subject)), z3.InRe(g(m.subject), lang)))
+        self.assumptions.update(notes)
+        self.assume_alt_facts(m.pattern, m.method, m.subject, True)
+
+    def assume_alt_facts(self, pat, method, subj, matched):
+        """exactly one top-level alternative of the pattern produced the match: its text lies in that alternative's
+        language (zero-width assertions dropped), its mandatory groups participate, the groups of the others do not"""
+        alts = rx.alternatives(pat)
+        if len(alts) < 2:
+            return
+        i = rx.ident(pat)
+        which = self.ufun(f'{i}_{method}_alt', STR, INT)(subj)
+        g0 = self.re_group_syms(pat, method, 0)[0](subj)
+        facts = [which >= 0, which < len(alts)]
+        for k, (lang, always, allg) in enumerate(alts):
+            fs = []
+            if lang is not None:
+                fs.append(z3.InRe(g0, lang))
+            for g in always:
+                fs.append(z3.Not(self.re_group_syms(pat, method, g)[1](subj)))
+            for k2, (_, _, allg2) in enumerate(alts):
+                if k2 != k:
+                    for g in allg2 - allg:
+                        fs.append(self.re_group_syms(pat, method, g)[1](subj))
+            if fs:
+                facts.append(z3.Implies(which == k, z3.And(*fs)))
+        f = z3.And(*facts)
+        self.path.assume(f if matched is True else z3.Implies(matched, f))
 
     def m_match(self, m, name, args, node):
         if name == 'group':
@@ -489,6 +552,22 @@ class MethodMixin:
                 raise PyRaise(IndexError, (), node, implicit=True)
             g, n = self.re_group_syms(m.pattern, m.method, k)
             return VOpt(n(m.subject), g(m.subject))
+        if name in ('start', 'end'):
+            k = args[0] if args else 0
+            if k != 0:
+                raise Unsupported('Match.start/end of a group')
+            i = rx.ident(m.pattern)
+            st = self.ufun(f'{i}_{m.method}_start', STR, INT)(m.subject)
+            g0 = self.re_group_syms(m.pattern, m.method, 0)[0](m.subject)
+            if not self.cur_pure():
+                self.path.assume(st >= 0)
+            return st if name == 'start' else st + z3.Length(g0)
+        if name == 'groupdict':
+            d = {}
+            for gname, k in m.pattern.groupindex.items():
+                g, n = self.re_group_syms(m.pattern, m.method, k)
+                d[gname] = VOpt(n(m.subject), g(m.subject))
+            return PyDict(d)
         raise Unsupported(f'Match.{name}')
 
     def m_pylist(self, recv, name, args, kwargs, node):
@@ -556,7 +635,7 @@ class MethodMixin:
         if recv.kind == 'dict':
             dom = t.sort().domain()
             if name == 'get':
-                k = self.zs.lift(args[0], dom)
+                k = self.zs.lift(self.unwrap(args[0], node), dom)
                 has = z3.Select(t, k)
                 val = z3.Select(recv.vsort, k)
                 if recv.keys is not None:
@@ -580,7 +659,7 @@ class MethodMixin:
                 t = z3.K(srt, False)
             dom = t.sort().domain()
             if name == 'add':
-                recv.term = z3.Store(t, self.zs.lift(args[0], dom), True)
+                recv.term = z3.Store(t, self.zs.lift(self.unwrap(args[0], node), dom), True)
                 return None
             if name in ('discard', 'remove'):
                 recv.term = z3.Store(t, self.zs.lift(args[0], dom), False)
